@@ -1,0 +1,45 @@
+//go:build verif
+
+// Package verifhook contains hook points used by the external verification harness.
+// With the "verif" build tag, the harness can install a function that is called
+// at every point (to yield, sleep, block or count) and a sink that receives events.
+package verifhook
+
+import "sync/atomic"
+
+var (
+	pointFn atomic.Pointer[func(string)]
+	eventFn atomic.Pointer[func(string, ...any)]
+)
+
+// SetPoint installs the function called at every Point (nil to remove).
+func SetPoint(f func(string)) {
+	if f == nil {
+		pointFn.Store(nil)
+		return
+	}
+	pointFn.Store(&f)
+}
+
+// SetEvent installs the event sink (nil to remove).
+func SetEvent(f func(string, ...any)) {
+	if f == nil {
+		eventFn.Store(nil)
+		return
+	}
+	eventFn.Store(&f)
+}
+
+// Point marks a position in the code.
+func Point(name string) {
+	if f := pointFn.Load(); f != nil {
+		(*f)(name)
+	}
+}
+
+// Event reports an event.
+func Event(name string, args ...any) {
+	if f := eventFn.Load(); f != nil {
+		(*f)(name, args...)
+	}
+}
